@@ -960,11 +960,14 @@ pub fn reported(c: &Chain) -> Value {
 
 // legacy (pre-migration) wait list: bucket "wait" / <addr json> / <batch json> -> Uint128
 fn read_legacy(st: &Store) -> Vec<Value> {
-    let mut s2 = st.clone();
-    let entries = basset_sei_hub::state::read_old_unbond_wait_lists(&mut s2, None).unwrap_or_default();
+    // read from the raw storage, not through the contract's own reader: the observation must not depend on the code it judges
+    let pfx = cosmwasm_storage::to_length_prefixed(b"wait");
+    let entries: Vec<(Vec<u8>, Uint128)> = st.0.iter().filter(|(k, _)| k.starts_with(&pfx))
+        .filter_map(|(k, v)| cosmwasm_std::from_json::<Uint128>(v).ok().map(|a| (k[pfx.len()..].to_vec(), a))).collect();
     let mut out = vec![];
     for e in entries {
-        if let Ok((key, amt)) = e {
+        {
+            let (key, amt) = e;
             // key = 2-byte length || addr json || batch json
             if key.len() < 2 {
                 continue;
